@@ -8,7 +8,8 @@ Members == {"isEleShort", "isEleFull", "isElement"}
 QKnown == {"C", "N", "6"}
 QUnknown == {"CH3", "999"}
 QCalls == {C(m, "CH3", 0) : m \in MissLookups \cup Members}
-          \cup {C("getEleName", "999", 0), C("getEleName", "6", 0), C("getMass", "C", 0), C("getEleFull", "C", 0)}
+          \cup {C("getEleName", "999", 0), C("getEleName", "6", 0), C("getMass", "C", 0), C("getEleFull", "C", 0),
+                C("getCovRadBohr", "C", 0), C("getCovRadBadUnit", "C", 0)}
           \cup {C("getEleShortClosestInMass", "zero", 0), C("getEleShortClosestInMass", "zero", 1),
                 C("getEleShortClosestInMass", "C", 1), C("getEleShortClosestInMass", "C", 3),
                 C("getEleShortClosestInMass", "mid", 0),
@@ -19,6 +20,7 @@ TUnknown == {"CH3", "Xx", "c", "999", "0"}
 TNames == {"C", "H", "Pb", "CH3", "Xx", "c"}
 TCalls == {C(m, n, 0) : m \in MissLookups \cup Members, n \in TNames}
           \cup {C("getEleName", n, 0) : n \in {"6", "82", "999", "0"}}
+          \cup {C(m, n, 0) : m \in {"getCovRadAng", "getCovRadBohr", "getCovRadNm", "getCovRadBadUnit"}, n \in {"C", "H", "Pb"}}
           \cup {C(m, b, k) : m \in MassCalls, b \in {"zero", "C", "H", "Pb"}, k \in {-3, -2, -1, 0, 1, 2, 3}}
           \cup {C(m, "mid", 0) : m \in MassCalls}
 ====
